@@ -116,7 +116,8 @@ Inductive op :=
 | OCopy (r : nat) (p : list nat)                    (* deepcopy(copy_parent=False) *)
 | OCopyWhole (r : nat)                              (* copy.deepcopy of a node: the whole tree is copied *)
 | OReplace (r : nat) (p : list nat) (r2 : nat) (p2 : list nat)   (* root.replace(node, other) *)
-| OPrefix (r : nat) (p : list nat).                 (* node.prefix(copy_tree=True) *)
+| OPrefix (r : nat) (p : list nat)                  (* node.prefix(copy_tree=True) *)
+| OCopyPruned (r : nat) (p : list nat).             (* node.deepcopy(copy_children=False): the whole tree is copied, the node itself without its children *)
 
 Definition nodup_b (l : list nat) : bool :=
   (fix go (l : list nat) : bool := match l with [] => true | x :: l' => negb (existsb (Nat.eqb x) l') && go l' end) l.
@@ -239,6 +240,16 @@ Definition step (st : state) (o : op) : state :=
           | _ :: _, Some _ => let '(c, nx) := copy_obj (next st) None ro in
                               {| pool := pl ++ [prefix_at p c]; next := nx |}
           | _, _ => st
+          end
+      | None => st
+      end
+  | OCopyPruned r p =>
+      match nth_error pl r with
+      | Some ro =>
+          match obj_at ro p with
+          | Some _ => let '(c, nx) := copy_obj (next st) None ro in
+                      {| pool := pl ++ [modify_at p (fun o => refresh o []) c]; next := nx |}
+          | None => st
           end
       | None => st
       end
